@@ -2,8 +2,10 @@ package checks
 
 import (
 	"fmt"
+	"math/rand"
 	"runtime"
 	"sort"
+	"sync"
 	"sync/atomic"
 	"time"
 
@@ -177,6 +179,51 @@ func c20class(n, m, delay int, def bool) (string, bool) {
 	return fmt.Sprintf("%s|mod=%s|%s|delay=%d|default=%v", rel, md, mb, delay, def), n >= 2 && m >= 2
 }
 
+// c20nested: the work function itself calls Execute, and several independent Execute calls run at the same time
+// (as MSMs inside concurrent proofs do): each call must still cover its own range exactly once and join.
+func c20nested(c *mon.Ctx, rng *rand.Rand) {
+	outerN, outerM := 1+rng.Intn(24), 1+rng.Intn(8)
+	innerN, innerM := rng.Intn(200), 1+rng.Intn(16)
+	hits := make([][]int32, outerN)
+	for i := range hits {
+		hits[i] = make([]int32, innerN)
+	}
+	parallel.Execute(outerN, func(s, e int) {
+		for i := s; i < e; i++ {
+			row := hits[i]
+			parallel.Execute(innerN, func(a, b int) {
+				for j := a; j < b; j++ {
+					atomic.AddInt32(&row[j], 1)
+				}
+			}, innerM)
+		}
+	}, outerM)
+	for i := range hits {
+		for j := range hits[i] {
+			if hits[i][j] != 1 {
+				c.Fail("nested-execute-coverage", fmt.Sprintf("nested Execute (outer n=%d m=%d, inner n=%d m=%d): inner index %d of outer iteration %d was visited %d times", outerN, outerM, innerN, innerM, j, i, hits[i][j]), nil)
+				return
+			}
+		}
+	}
+	c.Count("invocations", int64(outerN))
+	c.Count("delayed_invocations", 1)
+	c.Eval(fmt.Sprintf("nested|outer-m=%d|inner-m=%d", outerM, innerM), innerN >= 2)
+	// several top-level calls at once
+	var wg sync.WaitGroup
+	for g := 0; g < 6; g++ {
+		n, m := rng.Intn(300), 1+rng.Intn(20)
+		salt := rng.Uint64()
+		wg.Add(1)
+		go func() {
+			defer wg.Done()
+			c20call(c, n, m, false, 1, salt)
+		}()
+	}
+	wg.Wait()
+	c.Eval("concurrent-top-level-calls", true)
+}
+
 func runC20(c *mon.Ctx) {
 	part := c.Config["part"]
 	if part == "default" {
@@ -215,6 +262,15 @@ func runC20(c *mon.Ctx) {
 		})
 	}
 	c.Sample(map[string]interface{}{"call": "Execute(n, work, m)", "n": fmt.Sprintf("0..%d exhaustive", maxN), "m": fmt.Sprintf("1..%d exhaustive (this shard: m %% %d == %d)", maxM, c.NShards, c.Shard)})
+	if c.Mine(0) {
+		id := "nested-and-concurrent"
+		c.Case(id, func() {
+			rng := c.Rand(id)
+			for k := 0; k < c.Pick(60, 600); k++ {
+				c20nested(c, rng)
+			}
+		})
+	}
 	// seeded random pairs with larger n and m
 	nr := c.Pick(5000, 30000)
 	for k := 0; k < nr; k += 500 {
